@@ -686,11 +686,15 @@ def container_cases(ctx, count):
             m.sort_indices()
             m.eliminate_zeros()
             return 'ok ' + _enc_rows(_csr_rows(m))
-        for cmd, f in (('c01.tocsr', stored), ('c01.canon', canonical)):
+        allow = rng.random() < 0.5
+
+        def checked(obj=obj, allow=allow):
+            return 'ok ' + _enc_rows(_csr_rows(check_format(obj, allow_empty=allow)))
+        for cmd, f in (('c01.tocsr', stored), ('c01.canon', canonical), ('c01.check', checked)):
             with warnings.catch_warnings():
                 warnings.simplefilter('ignore')
                 impl = call(f)
-            run = '%s %s %s %d %d %s' % (cmd, tok, fmt, nr, nc, payload)
+            run = '%s %s %s %d %d %s' % (cmd, tok, fmt, nr, nc, payload) + ((' %d' % allow) if cmd == 'c01.check' else '')
             nontrivial = obj.nnz > 0 if sparse.issparse(obj) else bool(np.any(obj))
             cases.append(Case((cmd, dtype, fmt, nr, nc, payload), {'entry': 'check_format', 'format': fmt, 'dtype': dtype, 'line': cmd},
                               run, impl, None, nontrivial, {'f': 'check_format', 'line': run, 'impl': impl, 'dtype': dtype}))
